@@ -52,7 +52,54 @@ fn cases(rng: &mut Rng, n: usize) -> Vec<Case> {
     v
 }
 
+/// Real processes run in parallel: four built-in writers (forked subshells of the harness shell)
+/// share one pipe end and finish at arbitrary moments of each other's write calls. After `wait`
+/// the shared description is back in blocking mode and the consumer has every byte.
+fn shared_description_stress(ctx: &Ctx) {
+    let rounds = if ctx.quick() { 120 } else { 1500 };
+    let shards = if ctx.quick() { 4 } else { 16 };
+    ctx.par_for(
+        shards,
+        |k| {
+            let script = format!(
+                "i=0\nwhile [ $i -lt {rounds} ]; do\n  i=$((i+1))\n  {{ gen 5000 {k}1 & gen 5000 {k}2 & gen 5000 {k}3 & gen 5000 {k}4; wait; nbfd e; }} | tally t\ndone\n"
+            );
+            let mut cmd = std::process::Command::new(std::env::current_exe().unwrap());
+            cmd.args(["real-shell", "-c", &script]).env_clear().env("PATH", "/bin:/usr/bin").env("LANG", "C");
+            let out = match crate::util::run_child(cmd, None, 300) {
+                Ok(o) => o,
+                Err(e) => {
+                    if e.starts_with("BLOCKED") {
+                        ctx.violation("real:shared-description-stress:blocked", format!("{e}\nscript:\n{script}"));
+                    } else {
+                        ctx.inconclusive.fetch_add(1, std::sync::atomic::Ordering::Relaxed);
+                    }
+                    return;
+                }
+            };
+            let err = String::from_utf8_lossy(&out.stderr);
+            let modes: Vec<&str> = err.lines().filter(|l| l.starts_with("@e ")).collect();
+            let tallies: Vec<&str> = err.lines().filter(|l| l.starts_with("@t ")).collect();
+            ctx.evals(modes.len());
+            ctx.count("real_shared_description_rounds", modes.len() as i64);
+            let stuck = modes.iter().filter(|l| l.contains(":n")).count();
+            let short = tallies.iter().filter(|l| !l.starts_with("@t 20000 ") || !l.ends_with(" ok")).count();
+            if modes.len() != rounds || tallies.len() != rounds {
+                ctx.violation("real:shared-description-stress:incomplete", format!("{} of {rounds} rounds reported their descriptor modes, {} their byte counts\nscript:\n{script}stderr (tail):\n{}", modes.len(), tallies.len(), err.lines().rev().take(10).collect::<Vec<_>>().join("\n")));
+            } else if stuck > 0 {
+                ctx.violation("real:descriptor-left-non-blocking", format!("after {stuck} of {rounds} rounds a descriptor of the shell was left in non-blocking mode, e.g. `{}`\nscript:\n{script}", modes.iter().find(|l| l.contains(":n")).unwrap()));
+            } else if short > 0 {
+                ctx.violation("real:bytes-lost-or-changed", format!("{short} of {rounds} rounds did not deliver 20000 bytes, e.g. `{}`\nscript:\n{script}", tallies.iter().find(|l| !l.starts_with("@t 20000 ")).unwrap_or(&"")));
+            } else {
+                ctx.nontrivial_str(&format!("stress|{k}|{}", crate::util::fnv_str(&tallies.join("\n"))));
+            }
+        },
+        |i, msg| ctx.violation("harness-panic", format!("shared-description stress {i}: {msg}")),
+    );
+}
+
 pub fn run(ctx: &Ctx) {
+    shared_description_stress(ctx);
     let n = if ctx.quick() { 54 } else { 900 };
     let mut rng = Rng::new(ctx.seed.wrapping_mul(0x9E37_79B9).wrapping_add(14));
     let cs = cases(&mut rng, n);
